@@ -259,6 +259,20 @@ fn crash_child(dir: &std::path::Path) {
     b.create_snapshot().unwrap();
 }
 
+// F-C07-b (candidate, C07): the similarity path compares queries by COSINE similarity whatever the metric; under Euclidean
+// two collinear un-normalised queries are "similar" although their nearest neighbours differ.
+fn similarity_ignores_metric() -> bool {
+    let cfg = TieredEngineConfig { hot_tier_max_size: 100, hot_tier_hard_limit: 200, hnsw_max_elements: 100, embedding_dimension: 2, hnsw_distance: DistanceMetric::Euclidean, data_dir: None, ..Default::default() };
+    let e = TieredEngine::new(Box::new(LruCacheStrategy::new(10)), Arc::new(QueryHashCache::new(10, 0.99)), vec![], vec![], cfg).unwrap();
+    e.insert(1, vec![0.5, 0.0], HashMap::new()).unwrap();
+    e.insert(2, vec![0.9, 0.0], HashMap::new()).unwrap();
+    let (r1, p1) = e.knn_search_with_ef_detailed(&[0.5, 0.0], 1, None).unwrap();
+    println!("  query [0.5,0] -> {:?} via {:?}", r1, p1);
+    let (r2, p2) = e.knn_search_with_ef_detailed(&[0.9, 0.0], 1, None).unwrap();
+    println!("  query [0.9,0] -> {:?} via {:?}", r2, p2);
+    r2.first().map(|x| x.doc_id) != Some(2)
+}
+
 fn main() {
     let which = std::env::args().nth(1).unwrap_or_else(|| "all".to_string());
     if which == "F-C01-a-child" {
@@ -276,6 +290,7 @@ fn main() {
         ("F-C13-b", Box::new(truncated_older_segment)),
         ("F-C04-a", Box::new(drain_resurrects)),
         ("F-C07-a", Box::new(query_cache_key_collision)),
+        ("F-C07-b", Box::new(similarity_ignores_metric)),
     ];
     let mut any = false;
     let mut ran = 0;
